@@ -223,11 +223,36 @@ func mustPass(w *World, fn *ssa.Function, instrEvent func(ssa.Instruction) bool,
 func returnsOf(fn *ssa.Function) []*ssa.Return {
 	var out []*ssa.Return
 	for _, b := range fn.Blocks {
+		if b == fn.Recover {
+			continue // only entered after a recovered panic; not a normal exit
+		}
 		if r, ok := lastInstr(b).(*ssa.Return); ok {
 			out = append(out, r)
 		}
 	}
 	return out
+}
+
+// reachableAvoiding returns the blocks reachable from the entry without taking refused edges.
+func reachableAvoiding(fn *ssa.Function, refuse func(b *ssa.BasicBlock, idx int) bool) map[*ssa.BasicBlock]bool {
+	seen := map[*ssa.BasicBlock]bool{}
+	if len(fn.Blocks) == 0 {
+		return seen
+	}
+	stack := []*ssa.BasicBlock{fn.Blocks[0]}
+	seen[fn.Blocks[0]] = true
+	for len(stack) > 0 {
+		b := stack[len(stack)-1]
+		stack = stack[:len(stack)-1]
+		for i, s := range b.Succs {
+			if refuse(b, i) || seen[s] {
+				continue
+			}
+			seen[s] = true
+			stack = append(stack, s)
+		}
+	}
+	return seen
 }
 
 // errorIsChecked: the error result of call c is propagated: either tested against nil with the
